@@ -36,6 +36,8 @@ class Cfg(object):
         self.ok_w = 14           # weight of "ok" among item outcomes (err and unset weigh 1 each)
         self.fault_leaf_w = 1    # weight of each failing non-item leaf kind among plain leaves (items weigh 6)
         self.empty_structs = True
+        self.batch_free = False  # C15: only constant futures / None / plain tasks as leaves
+        self.probes = False      # C15: statements that try a plain synchronous call of an @asynq() function
         self.__dict__.update(kw)
 
 
@@ -83,6 +85,8 @@ class S(object):
 
 def item(s, kind=None, outcome=None):
     cfg = s.cfg
+    if cfg.batch_free:
+        return s.pick([["const", s.int(0, 9)], ["const", s.int(0, 9)], ["afn", s.int(0, 3)], ["nonef"], None])
     if kind is None:
         kind = s.pick(cfg.kinds)
     if outcome is None:
@@ -98,6 +102,8 @@ def item(s, kind=None, outcome=None):
 def plain_leaf(s):
     """a leaf that is not a task"""
     cfg = s.cfg
+    if cfg.batch_free:
+        return item(s)
     opts = ["item"] * 6 + ["const", "none", "nonef", "lazyok"]
     if cfg.ditem:
         opts += ["ditem"] * 2
@@ -343,6 +349,9 @@ def decorate_task(s, t, shared_ids):
     if cfg.faults and s.chance(12):
         pos_body = pick_block(s, body)
         pos_body.insert(s.int(0, len(pos_body)), {"op": "raise", "sid": s.sid()})
+    if cfg.probes and s.chance(5):
+        pos_body = pick_block(s, body)
+        pos_body.insert(s.int(0, len(pos_body)), {"op": "probe"})
     if cfg.early_result and s.chance(15):
         pos_body = pick_block(s, body)
         pos_body.insert(s.int(0, len(pos_body)), {"op": "result"})
